@@ -19,7 +19,8 @@ def build(spec):
     if k in s:
       s[k] = tuple(s[k])
   if name == 'PerDomainMetric':
-    return metrics.PerDomainMetric(build(s['base']), s['num_domains'])
+    extra = {'domain_id_key': s['domain_id_key']} if s.get('domain_id_key') is not None else {}
+    return metrics.PerDomainMetric(build(s['base']), s['num_domains'], **extra)
   return getattr(metrics, name)(**s)
 
 
